@@ -65,6 +65,40 @@ def type_eq(a, b):
     return json.dumps(a, sort_keys=True) == json.dumps(b, sort_keys=True)
 
 
+def _children(t):
+    k = t_kind(t)
+    if k == "Tuple":
+        return t["Tuple"]
+    if k == "NamedTuple":
+        return [x[1] for x in t["NamedTuple"]]
+    return [t["Vector"][1]] * t["Vector"][0]
+
+
+def _leaves(v, t):
+    if is_arr(t):
+        yield v, t
+        return
+    for x, tt in zip(v, _children(t)):
+        yield from _leaves(x, tt)
+
+
+def _rebuild(it, t):
+    if is_arr(t):
+        nxt = next(it, None)
+        if nxt is None:
+            raise ValueError("reshape: fewer leaves in the argument than in the target type")
+        v, tv = nxt
+        if t_st(tv) != t_st(t):
+            raise ValueError(f"reshape: leaf scalar type {t_st(tv)} -> {t_st(t)}")
+        n_src = int(np.prod(t_shape(tv), dtype=object)) if len(t_shape(tv)) else 1
+        n_dst = int(np.prod(t_shape(t), dtype=object)) if len(t_shape(t)) else 1
+        if n_src != n_dst:
+            raise ValueError(f"reshape: leaf with {n_src} elements -> {n_dst}")
+        r = np.reshape(np.asarray(v, dtype=object), t_shape(t))
+        return obj(r)
+    return [_rebuild(it, tt) for tt in _children(t)]
+
+
 # ---------------------------------------------------------------- codec
 def decode_arr(hexs, t):
     st = t_st(t)
@@ -271,11 +305,15 @@ def eval_op(op, args, arg_types):
         r = obj(r) if not isinstance(r, np.ndarray) else r
         return r, mk_t(np.shape(r), t_st(ta))
     if name == "Reshape":
+        # documented: the flattened sequences of leaves (scalars / arrays) of both types must pair
+        # up with equal scalar type and equal number of elements; every leaf is reshaped on its own
         (a,), (ta,) = args, arg_types
-        if not is_arr(ta) or not is_arr(p):
-            raise Unsupported("reshape of containers")
-        r = np.reshape(a, t_shape(p))
-        return obj(r), p
+        src = list(_leaves(a, ta))
+        it = iter(src)
+        r = _rebuild(it, p)
+        if next(it, None) is not None:
+            raise ValueError("reshape: more leaves in the argument than in the target type")
+        return r, p
     if name == "NOP":
         return args[0], arg_types[0]
     if name == "Stack":
